@@ -1,14 +1,20 @@
 #!/usr/bin/env python3
-"""Write reference/functions.json: the functions (qualified names per file) of the tree the rules were written against.
-mxsa/normalise.py inlines helpers that are not in this inventory.  Regenerate only together with a review of the rules."""
+"""Write reference/functions.json: the functions (qualified names per file, with their parameter names and the names they call) and
+the stored attribute names (with the functions that mention them) of the tree the rules were written against.
+mxsa/normalise.py uses it to (1) give renamed functions / fields their reference names back and (2) inline helpers that are not in
+the inventory.  Regenerate only together with a review of the rules."""
 import json, os, sys
 VERIF = os.path.dirname(os.path.dirname(os.path.abspath(__file__)))
 sys.path.insert(0, VERIF)
 os.environ['MXSA_NO_NORMALISE'] = '1'
 from mxsa.srcmodel import SourceModel
-from mxsa.normalise import module_function_quals
+from mxsa.normalise import module_function_quals, function_profile, field_profiles
 sm = SourceModel()
-inv = {m.relpath: sorted(q for q, *_ in module_function_quals(m.tree)) for m in sm.modules.values()}
-inv = {k: v for k, v in sorted(inv.items()) if v}
-json.dump(inv, open(os.path.join(VERIF, 'reference', 'functions.json'), 'w'), indent=0, sort_keys=True)
-print(sum(len(v) for v in inv.values()), 'functions in', len(inv), 'files')
+inv = {}
+for m in sm.modules.values():
+    quals = {q: function_profile(node) for q, node, cls, parent in module_function_quals(m.tree)}
+    if quals:
+        inv[m.relpath] = quals
+out = {'functions': {k: inv[k] for k in sorted(inv)}, 'fields': field_profiles(sm)}
+json.dump(out, open(os.path.join(VERIF, 'reference', 'functions.json'), 'w'), indent=0, sort_keys=True)
+print(sum(len(v) for v in inv.values()), 'functions in', len(inv), 'files;', len(out['fields']), 'stored attribute names')
